@@ -225,8 +225,8 @@ class MixinAnalysis:
                 pre = trace[a:first_write]
                 same_tested = any(ev.kind == "GUARD" and ev.name == "is" and {ev.a, ev.b} == {x, q} and ev.outcome is False
                                   for ev in pre)
-                scan = any(ev.kind == "GUARD" and ev.name == "ancestor-scan" and ev.a == x and ev.b == ("chain", q)
-                           and ev.outcome is False for ev in pre)
+                scan = any(ev.kind == "GUARD" and ev.name == "ancestor-scan" and ev.a == x and ev.outcome is False
+                           and (ev.b == ("chain", q) or (same_tested and ev.b == ("properchain", q))) for ev in pre)
                 loop_scan = False
                 for ev in pre:
                     if ev.kind == "LOOPEND" and ev.a == ("chain", q):
@@ -234,6 +234,12 @@ class MixinAnalysis:
                         if ks and all(any(g.kind == "GUARD" and g.name == "is" and g.outcome is False and
                                           {g.a, g.b} == {x, ("elem", ("chain", q), k)} for g in pre) for k in ks):
                             loop_scan = True
+                # a node without children is nobody's proper ancestor (C01 at entry): once `x is q` is excluded no scan is needed
+                leaf = same_tested and any(
+                    (ev.kind == "GUARD" and ev.name == "opaque" and ev.a == ("list_of", x) and ev.outcome is False)
+                    or (ev.kind == "LAZYINIT" and ev.recv == x) for ev in pre)
+                if leaf:
+                    continue
                 if not (scan or loop_scan):
                     w = trace[first_write]
                     out.setdefault(("W5", f.where, "ancestor"), (Problem(
@@ -425,7 +431,7 @@ class MixinAnalysis:
             vetoable = False
             if exc.origin == "raise" and exc.cls in ("TreeError", "LoopError"):
                 vetoable = True
-            elif exc.origin == "useriter":
+            elif exc.origin in ("useriter", "nonnode"):
                 vetoable = True
             elif exc.origin == "hook" and origin.name in T.PRE_HOOKS:
                 vetoable = True
@@ -766,6 +772,8 @@ def _veto_kind(exc):
         return "%s may veto" % exc.event.name
     if exc.origin == "useriter":
         return "iterating the argument may fail"
+    if exc.origin == "nonnode":
+        return "the argument may not be a node at all"
     return exc.cls
 
 
